@@ -78,6 +78,10 @@ def make_sources(base, rng, nfiles, progs=None):
             mg.append((p, "M%d" % len(mg), len(mg) % 3))
     files["pk/f.go"] = minigo.render_file("pk", mg).replace("example.com/minigo/", "example.com/c01/")
     ids.append("pk/f.go")
+    # (d) two files of one package, the second uses a constant the first declares
+    files["pkgov/a.go"] = "package pkgov\n\nconst Limit = 8\n\nfunc A(x int) int { return x + Limit }\n"
+    files["pkgov/b.go"] = ("package pkgov\n\nfunc B(x int) int {\n\tif x > Limit {\n\t\treturn Limit\n\t}\n\tfor i := 0; i < Limit; i++ {\n\t\tx += i\n\t}\n\treturn x\n}\n")
+    ids += ["pkgov/a.go", "pkgov/b.go"]
     gogen.write_module(base, "gen", files, module="example.com/c01")
     minigo.write_support(base)
     return ids
@@ -140,6 +144,10 @@ def check(ctx):
         plan = {"files": [{"id": i, "path": os.path.join(root, i)} for i in ids], "rounds": 3 if thorough else 1,
                 "goroutines": 32 if thorough else 12, "seed": ctx.seed * 100 + n,
                 "label": "proc%d dir=%s GOMAXPROCS=%d" % (n, loc, g)}
+        if "pkgov/b.go" in ids:
+            plan["overlays"] = [{"edited_path": os.path.join(root, "pkgov", "a.go"),
+                                 "edited_src": "package pkgov\n\nconst Limit = 4096\n\nfunc A(x int) int { return x + Limit }\n\nfunc Extra() int { return 1 }\n",
+                                 "other_id": "pkgov/b.go", "other_path": os.path.join(root, "pkgov", "b.go")}]
         pp = os.path.join(ctx.scratch, "plan%d.json" % n)
         out = os.path.join(ctx.scratch, "run%d.ndjson" % n)
         with open(pp, "w") as fh:
